@@ -312,7 +312,22 @@ def rule_decode(R):
     R.floor("decode", n, 27, "property identifiers decoded")
 
 
+def rule_property_cursor(R):
+    """response topic and correlation data are found wherever they stand in the block: the iterator advances by exactly what each property occupied -- C08's clause"""
+    from .c08 import clause_property_cursor
+    clause_property_cursor(R, "props-iter")
+
+
+def rule_shared_block(R):
+    """the reply carries the correlation data *and* the user properties: the declared length of a correlated property
+    block is the sum of the encoded sizes of everything `serialize` emits for it -- C09's rule"""
+    from .c09 import rule_block as _r
+    _r(R)
+
+
 def run(R):
+    R.rule("block", rule_shared_block)
+    R.rule("props-iter", rule_property_cursor)
     R.rule("decode", rule_decode)
     R.rule("lookup", rule_lookup)
     R.rule("target", rule_target)
